@@ -620,12 +620,14 @@ package chain
 //@ func (*DBStore).ApplyBlock props C03
 //@   requires db != nil && db.db != nil && db.n != nil
 //@   requires [one-diff-per-id] oneDiffPerIDApply(cau)
+//@   requires [schedule-ready] forall d int :: { cau.FileContractElementDiffs()[d] } 0 <= d && d < len(cau.FileContractElementDiffs()) ==> expReadyApply(gExp, cau.FileContractElementDiffs()[d])
 //@   ensures [writes-before-commit] !mayHaveCalled("Flush") || (calledBefore("applyState", "Flush") && (s.Index.Height > db.n.HardforkV2.RequireHeight || calledBefore("applyElements", "Flush")))
 //@   ensures [state-written] called("applyState")
 //@   ensures [index] best == old(best)[s.Index.Height := s.Index.ID] && sheight == s.Index.Height
 //@ func (*DBStore).RevertBlock props C03
 //@   requires db != nil && db.db != nil && db.n != nil
 //@   requires [one-diff-per-id] oneDiffPerIDRevert(cru)
+//@   requires [schedule-ready] forall d int :: { cru.FileContractElementDiffs()[d] } 0 <= d && d < len(cru.FileContractElementDiffs()) ==> expReadyRevert(gExp, cru.FileContractElementDiffs()[d])
 //@   ensures [writes-before-commit] !mayHaveCalled("Flush") || (calledBefore("revertState", "Flush") && (s.Index.Height > db.n.HardforkV2.RequireHeight || calledBefore("revertElements", "Flush")))
 //@   ensures [state-written] called("revertState")
 //@   requires [tip-parent] s.Index.Height < 18446744073709551615
@@ -814,12 +816,20 @@ package chain
 //@   assigns heap:DBStore, ghost:gFC
 //@   ensures db.db == old(db.db) && db.n == old(db.n)
 //@   ensures gFC == remove(old(gFC), id)
+// The expiration schedule as "the height under whose list a contract id is filed" (gExp): filing
+// puts the id under that height; unfiling removes it and is only meaningful at the height the id
+// is filed under (call-site precondition: the real primitive searches that height's list only).
+// The ORDER inside one height's list is not part of this abstraction (known finding K13).
+//@ ghost gExp map[types.FileContractID]uint64
 //@ func (*DBStore).putFileContractExpiration
-//@   assigns heap:DBStore
+//@   assigns heap:DBStore, ghost:gExp
 //@   ensures db.db == old(db.db) && db.n == old(db.n)
+//@   ensures gExp == old(gExp)[id := windowEnd]
 //@ func (*DBStore).deleteFileContractExpiration
-//@   assigns heap:DBStore
+//@   assigns heap:DBStore, ghost:gExp
+//@   requires [filed-here] (id in gExp) && gExp[id] == windowEnd
 //@   ensures db.db == old(db.db) && db.n == old(db.n)
+//@   ensures gExp == remove(old(gExp), id)
 //@ extern (consensus.ApplyUpdate).ForEachTreeNode
 //@   assigns nothing
 //@ extern (consensus.RevertUpdate).ForEachTreeNode
@@ -861,6 +871,26 @@ package chain
 //@     ite(df.Resolved, !(df.FileContractElement.ID in g),
 //@     ite(df.Revision != nil, (df.FileContractElement.ID in g) && g[df.FileContractElement.ID].ID == df.FileContractElement.ID && g[df.FileContractElement.ID].FileContract == *df.Revision && g[df.FileContractElement.ID].StateElement.LeafIndex == df.FileContractElement.StateElement.LeafIndex,
 //@         (df.FileContractElement.ID in g) && sameFC(g[df.FileContractElement.ID], df.FileContractElement))))
+// ... and the schedule: a created contract is filed under its window end, a resolved one unfiled,
+// a revision that moves the window end refiles, any other revision leaves the filing alone
+//@ pred expSame(g map[types.FileContractID]uint64, g0 map[types.FileContractID]uint64, id types.FileContractID) = ((id in g) <==> (id in g0)) && g[id] == g0[id]
+//@ pred expApplied(g map[types.FileContractID]uint64, g0 map[types.FileContractID]uint64, df consensus.FileContractElementDiff) =
+//@     ite(df.Created && df.Resolved, expSame(g, g0, df.FileContractElement.ID),
+//@     ite(df.Resolved, !(df.FileContractElement.ID in g),
+//@     ite(df.Revision != nil, ite(df.Revision.WindowEnd != df.FileContractElement.FileContract.WindowEnd, (df.FileContractElement.ID in g) && g[df.FileContractElement.ID] == df.Revision.WindowEnd, expSame(g, g0, df.FileContractElement.ID)),
+//@         (df.FileContractElement.ID in g) && g[df.FileContractElement.ID] == df.FileContractElement.FileContract.WindowEnd)))
+//@ pred expReverted(g map[types.FileContractID]uint64, g0 map[types.FileContractID]uint64, df consensus.FileContractElementDiff) =
+//@     ite(df.Created && df.Resolved, expSame(g, g0, df.FileContractElement.ID),
+//@     ite(df.Resolved, (df.FileContractElement.ID in g) && g[df.FileContractElement.ID] == df.FileContractElement.FileContract.WindowEnd,
+//@     ite(df.Revision != nil, ite(df.Revision.WindowEnd != df.FileContractElement.FileContract.WindowEnd, (df.FileContractElement.ID in g) && g[df.FileContractElement.ID] == df.FileContractElement.FileContract.WindowEnd, expSame(g, g0, df.FileContractElement.ID)),
+//@         !(df.FileContractElement.ID in g))))
+// what a valid block's diffs find in the schedule: a resolved / revised contract is filed under the
+// window end of the element the diff carries (apply), resp. of its revision (revert); a created
+// one is not filed yet (apply), resp. filed under its window end (revert)
+//@ pred expReadyApply(g map[types.FileContractID]uint64, df consensus.FileContractElementDiff) =
+//@     (df.Created && df.Resolved) || ite(df.Resolved || df.Revision != nil, (df.FileContractElement.ID in g) && g[df.FileContractElement.ID] == df.FileContractElement.FileContract.WindowEnd, true)
+//@ pred expReadyRevert(g map[types.FileContractID]uint64, df consensus.FileContractElementDiff) =
+//@     (df.Created && df.Resolved) || ite(df.Resolved, true, ite(df.Revision != nil, (df.FileContractElement.ID in g) && g[df.FileContractElement.ID] == df.Revision.WindowEnd, (df.FileContractElement.ID in g) && g[df.FileContractElement.ID] == df.FileContractElement.FileContract.WindowEnd))
 //@ pred fcReverted(g map[types.FileContractID]types.FileContractElement, g0 map[types.FileContractID]types.FileContractElement, df consensus.FileContractElementDiff) =
 //@     ite(df.Created && df.Resolved, ((df.FileContractElement.ID in g) <==> (df.FileContractElement.ID in g0)) && g[df.FileContractElement.ID] == g0[df.FileContractElement.ID],
 //@     ite(df.Resolved || df.Revision != nil, (df.FileContractElement.ID in g) && sameFC(g[df.FileContractElement.ID], df.FileContractElement), !(df.FileContractElement.ID in g)))
@@ -870,8 +900,9 @@ package chain
 // created and spent in the same block is not touched, and nothing else in the bucket changes.
 // (Precondition: a block has one diff per element.)
 //@ func (*DBStore).applyElements props C02
-//@   assigns heap:DBStore, ghost:gSC, ghost:gSF, ghost:gFC
+//@   assigns heap:DBStore, ghost:gSC, ghost:gSF, ghost:gFC, ghost:gExp
 //@   requires db != nil
+//@   requires [schedule-ready] forall d int :: { cau.FileContractElementDiffs()[d] } 0 <= d && d < len(cau.FileContractElementDiffs()) ==> expReadyApply(gExp, cau.FileContractElementDiffs()[d])
 //@   requires [one-diff-per-id] oneDiffPerIDApply(cau)
 //@   loop "range cau.SiacoinElementDiffs()"
 //@     invariant db == old(db) && db.db == old(db.db) && db.n == old(db.n) && gSF == loopentry(gSF) && gFC == loopentry(gFC)
@@ -883,6 +914,8 @@ package chain
 //@     invariant [rest] forall id types.SiafundOutputID :: { id in gSF } (forall d int :: { cau.SiafundElementDiffs()[d] } 0 <= d && d <= rangeindex ==> cau.SiafundElementDiffs()[d].SiafundElement.ID != id) ==> ((id in gSF) <==> (id in old(gSF))) && gSF[id] == old(gSF)[id]
 //@   loop "range cau.FileContractElementDiffs()"
 //@     invariant db == old(db) && db.db == old(db.db) && db.n == old(db.n) && gSC == loopentry(gSC) && gSF == loopentry(gSF)
+//@     invariant [exp-done] forall d int :: { cau.FileContractElementDiffs()[d] } 0 <= d && d <= rangeindex ==> expApplied(gExp, old(gExp), cau.FileContractElementDiffs()[d])
+//@     invariant [exp-rest] forall id types.FileContractID :: { id in gExp } (forall d int :: { cau.FileContractElementDiffs()[d] } 0 <= d && d <= rangeindex ==> cau.FileContractElementDiffs()[d].FileContractElement.ID != id) ==> expSame(gExp, old(gExp), id)
 //@     invariant [done] forall d int :: { cau.FileContractElementDiffs()[d] } 0 <= d && d <= rangeindex ==> fcApplied(gFC, old(gFC), cau.FileContractElementDiffs()[d])
 //@     invariant [rest] forall id types.FileContractID :: { id in gFC } (forall d int :: { cau.FileContractElementDiffs()[d] } 0 <= d && d <= rangeindex ==> cau.FileContractElementDiffs()[d].FileContractElement.ID != id) ==> ((id in gFC) <==> (id in old(gFC))) && gFC[id] == old(gFC)[id]
 //@   ensures [fields] db.db == old(db.db) && db.n == old(db.n)
@@ -893,6 +926,8 @@ package chain
 //@   ensures [sf-frame] forall id types.SiafundOutputID :: { id in gSF } (forall d int :: { cau.SiafundElementDiffs()[d] } 0 <= d && d < len(cau.SiafundElementDiffs()) ==> cau.SiafundElementDiffs()[d].SiafundElement.ID != id) ==> ((id in gSF) <==> (id in old(gSF))) && gSF[id] == old(gSF)[id]
 //@   ensures [sf-frame-v] forall id types.SiafundOutputID :: { gSF[id] } (forall d int :: { cau.SiafundElementDiffs()[d] } 0 <= d && d < len(cau.SiafundElementDiffs()) ==> cau.SiafundElementDiffs()[d].SiafundElement.ID != id) ==> ((id in gSF) <==> (id in old(gSF))) && gSF[id] == old(gSF)[id]
 //@   ensures [fc] forall d int :: { cau.FileContractElementDiffs()[d] } 0 <= d && d < len(cau.FileContractElementDiffs()) ==> fcApplied(gFC, old(gFC), cau.FileContractElementDiffs()[d])
+//@   ensures [exp] forall d int :: { cau.FileContractElementDiffs()[d] } 0 <= d && d < len(cau.FileContractElementDiffs()) ==> expApplied(gExp, old(gExp), cau.FileContractElementDiffs()[d])
+//@   ensures [exp-frame] forall id types.FileContractID :: { id in gExp } (forall d int :: { cau.FileContractElementDiffs()[d] } 0 <= d && d < len(cau.FileContractElementDiffs()) ==> cau.FileContractElementDiffs()[d].FileContractElement.ID != id) ==> expSame(gExp, old(gExp), id)
 //@   ensures [fc-frame] forall id types.FileContractID :: { id in gFC } (forall d int :: { cau.FileContractElementDiffs()[d] } 0 <= d && d < len(cau.FileContractElementDiffs()) ==> cau.FileContractElementDiffs()[d].FileContractElement.ID != id) ==> ((id in gFC) <==> (id in old(gFC))) && gFC[id] == old(gFC)[id]
 //@   ensures [fc-frame-v] forall id types.FileContractID :: { gFC[id] } (forall d int :: { cau.FileContractElementDiffs()[d] } 0 <= d && d < len(cau.FileContractElementDiffs()) ==> cau.FileContractElementDiffs()[d].FileContractElement.ID != id) ==> ((id in gFC) <==> (id in old(gFC))) && gFC[id] == old(gFC)[id]
 //
@@ -900,11 +935,14 @@ package chain
 // contract gets its prior revision back, an element that was created leaves the bucket, an
 // element created and spent in the block is not touched.
 //@ func (*DBStore).revertElements props C02
-//@   assigns heap:DBStore, ghost:gSC, ghost:gSF, ghost:gFC
+//@   assigns heap:DBStore, ghost:gSC, ghost:gSF, ghost:gFC, ghost:gExp
 //@   requires db != nil
+//@   requires [schedule-ready] forall d int :: { cru.FileContractElementDiffs()[d] } 0 <= d && d < len(cru.FileContractElementDiffs()) ==> expReadyRevert(gExp, cru.FileContractElementDiffs()[d])
 //@   requires [one-diff-per-id] oneDiffPerIDRevert(cru)
 //@   loop "range cru.FileContractElementDiffs()"
 //@     invariant db == old(db) && db.db == old(db.db) && db.n == old(db.n) && gSC == loopentry(gSC) && gSF == loopentry(gSF)
+//@     invariant [exp-done] forall d int :: { cru.FileContractElementDiffs()[d] } 0 <= d && d <= rangeindex ==> expReverted(gExp, old(gExp), cru.FileContractElementDiffs()[d])
+//@     invariant [exp-rest] forall id types.FileContractID :: { id in gExp } (forall d int :: { cru.FileContractElementDiffs()[d] } 0 <= d && d <= rangeindex ==> cru.FileContractElementDiffs()[d].FileContractElement.ID != id) ==> expSame(gExp, old(gExp), id)
 //@     invariant [done] forall d int :: { cru.FileContractElementDiffs()[d] } 0 <= d && d <= rangeindex ==> fcReverted(gFC, old(gFC), cru.FileContractElementDiffs()[d])
 //@     invariant [rest] forall id types.FileContractID :: { id in gFC } (forall d int :: { cru.FileContractElementDiffs()[d] } 0 <= d && d <= rangeindex ==> cru.FileContractElementDiffs()[d].FileContractElement.ID != id) ==> ((id in gFC) <==> (id in old(gFC))) && gFC[id] == old(gFC)[id]
 //@   loop "range cru.SiafundElementDiffs()"
@@ -923,6 +961,8 @@ package chain
 //@   ensures [sf-frame] forall id types.SiafundOutputID :: { id in gSF } (forall d int :: { cru.SiafundElementDiffs()[d] } 0 <= d && d < len(cru.SiafundElementDiffs()) ==> cru.SiafundElementDiffs()[d].SiafundElement.ID != id) ==> ((id in gSF) <==> (id in old(gSF))) && gSF[id] == old(gSF)[id]
 //@   ensures [sf-frame-v] forall id types.SiafundOutputID :: { gSF[id] } (forall d int :: { cru.SiafundElementDiffs()[d] } 0 <= d && d < len(cru.SiafundElementDiffs()) ==> cru.SiafundElementDiffs()[d].SiafundElement.ID != id) ==> ((id in gSF) <==> (id in old(gSF))) && gSF[id] == old(gSF)[id]
 //@   ensures [fc] forall d int :: { cru.FileContractElementDiffs()[d] } 0 <= d && d < len(cru.FileContractElementDiffs()) ==> fcReverted(gFC, old(gFC), cru.FileContractElementDiffs()[d])
+//@   ensures [exp] forall d int :: { cru.FileContractElementDiffs()[d] } 0 <= d && d < len(cru.FileContractElementDiffs()) ==> expReverted(gExp, old(gExp), cru.FileContractElementDiffs()[d])
+//@   ensures [exp-frame] forall id types.FileContractID :: { id in gExp } (forall d int :: { cru.FileContractElementDiffs()[d] } 0 <= d && d < len(cru.FileContractElementDiffs()) ==> cru.FileContractElementDiffs()[d].FileContractElement.ID != id) ==> expSame(gExp, old(gExp), id)
 //@   ensures [fc-frame] forall id types.FileContractID :: { id in gFC } (forall d int :: { cru.FileContractElementDiffs()[d] } 0 <= d && d < len(cru.FileContractElementDiffs()) ==> cru.FileContractElementDiffs()[d].FileContractElement.ID != id) ==> ((id in gFC) <==> (id in old(gFC))) && gFC[id] == old(gFC)[id]
 //@   ensures [fc-frame-v] forall id types.FileContractID :: { gFC[id] } (forall d int :: { cru.FileContractElementDiffs()[d] } 0 <= d && d < len(cru.FileContractElementDiffs()) ==> cru.FileContractElementDiffs()[d].FileContractElement.ID != id) ==> ((id in gFC) <==> (id in old(gFC))) && gFC[id] == old(gFC)[id]
 //
@@ -954,6 +994,12 @@ package chain
 //@        ite(cau.FileContractElementDiffs()[d].Resolved || cau.FileContractElementDiffs()[d].Revision != nil,
 //@            (cau.FileContractElementDiffs()[d].Created && cau.FileContractElementDiffs()[d].Resolved) || ((cau.FileContractElementDiffs()[d].FileContractElement.ID in gFC) && sameFC(gFC[cau.FileContractElementDiffs()[d].FileContractElement.ID], cau.FileContractElementDiffs()[d].FileContractElement)),
 //@            !(cau.FileContractElementDiffs()[d].FileContractElement.ID in gFC))
+//@   requires [valid-exp] forall d int :: { cau.FileContractElementDiffs()[d] } 0 <= d && d < len(cau.FileContractElementDiffs()) ==>
+//@        expReadyApply(gExp, cau.FileContractElementDiffs()[d]) && (!cau.FileContractElementDiffs()[d].Resolved && cau.FileContractElementDiffs()[d].Revision == nil ==> !(cau.FileContractElementDiffs()[d].FileContractElement.ID in gExp))
+//@   ensures [exp-touched] forall d int :: { cau.FileContractElementDiffs()[d] } 0 <= d && d < len(cau.FileContractElementDiffs()) ==>
+//@        ((cau.FileContractElementDiffs()[d].FileContractElement.ID in gExp) <==> (cau.FileContractElementDiffs()[d].FileContractElement.ID in old(gExp)))
+//@        && ((cau.FileContractElementDiffs()[d].FileContractElement.ID in gExp) ==> gExp[cau.FileContractElementDiffs()[d].FileContractElement.ID] == old(gExp)[cau.FileContractElementDiffs()[d].FileContractElement.ID])
+//@   ensures [exp-untouched] forall id types.FileContractID :: { id in gExp } (forall d int :: { cau.FileContractElementDiffs()[d] } 0 <= d && d < len(cau.FileContractElementDiffs()) ==> cau.FileContractElementDiffs()[d].FileContractElement.ID != id) ==> expSame(gExp, old(gExp), id)
 //@   ensures [sc-touched] forall d int :: { cau.SiacoinElementDiffs()[d] } 0 <= d && d < len(cau.SiacoinElementDiffs()) ==>
 //@        ((cau.SiacoinElementDiffs()[d].SiacoinElement.ID in gSC) <==> (cau.SiacoinElementDiffs()[d].SiacoinElement.ID in old(gSC))) && ((cau.SiacoinElementDiffs()[d].SiacoinElement.ID in gSC) ==> sameSC(gSC[cau.SiacoinElementDiffs()[d].SiacoinElement.ID], old(gSC)[cau.SiacoinElementDiffs()[d].SiacoinElement.ID]))
 //@   ensures [sc-untouched] forall id types.SiacoinOutputID :: { id in gSC } (forall d int :: { cau.SiacoinElementDiffs()[d] } 0 <= d && d < len(cau.SiacoinElementDiffs()) ==> cau.SiacoinElementDiffs()[d].SiacoinElement.ID != id) ==> ((id in gSC) <==> (id in old(gSC))) && gSC[id] == old(gSC)[id]
